@@ -24,6 +24,7 @@ EXPLANATION = (
     "model (T8: exhaustive without catch-all; file-reference arms reach the pending-trace queue), and field provenance of the "
     "emit options (T4)."
 )
+EXPLANATION += " " + 'Plus: computed keys are value references in every visitor (T12), every leaf arm of DepsFiller::fill and every visitor override collects something, re-queued qualified traces keep their referrer (T4), result tables of ImportedExports::add / Exports::extend (T8), declaration / export loops never stop early, all dependency lookups of symbols + fast check prefer types (T12).'
 NOT_DECIDED = "closure of the emitted program under reference, parseability, source-map position correctness (properties of emitted text)"
 ASSUMPTIONS = []
 
